@@ -400,6 +400,13 @@ public:
    */
   void sortInEdgesByDst(GraphNode N, MethodFlag mflag = MethodFlag::WRITE) {
     BaseGraph::acquireNode(N, mflag);
+    if (std::is_void<EdgeTy>::value && !EdgeDataByValue) {
+      // no edge data: the in-edge -> out-edge index (inEdgeData) is never
+      // allocated, there are only destinations to sort
+      std::sort(inEdgeDst.data() + *in_raw_begin(N),
+                inEdgeDst.data() + *in_raw_end(N));
+      return;
+    }
     // depending on value/ref the type of EdgeSortValue changes
     using EdgeSortVal = EdgeSortValue<
         GraphNode,
